@@ -2141,10 +2141,22 @@ def _guard_polarity(g, node):
         t, neg = st.test, False
         while isinstance(t, ast.UnaryOp) and isinstance(t.op, ast.Not):
             t, neg = t.operand, not neg
-        parts = t.values if isinstance(t, ast.BoolOp) and isinstance(t.op, ast.And) and not neg else [t]
+        # the arm in which a *conjunction* of parts holds: `if a and b` -> body; `if not (a and b)` -> else;
+        # `if (not a) or (not b)` -> else, with the parts negated; `if not (a or b)` -> body, with the parts negated
+        conj_arm, rest_arm, part_neg = st.body, st.orelse, False
+        if isinstance(t, ast.BoolOp) and isinstance(t.op, ast.And):
+            parts = t.values
+            if neg:
+                conj_arm, rest_arm = st.orelse, st.body
+        elif isinstance(t, ast.BoolOp) and isinstance(t.op, ast.Or):
+            parts, part_neg = t.values, True
+            if not neg:
+                conj_arm, rest_arm = st.orelse, st.body
+        else:
+            parts, part_neg = [t], neg
         pos = None
         for p_ in parts:
-            q, n2 = p_, neg
+            q, n2 = p_, part_neg
             while isinstance(q, ast.UnaryOp) and isinstance(q.op, ast.Not):
                 q, n2 = q.operand, not n2
             if q is node:
@@ -2153,7 +2165,7 @@ def _guard_polarity(g, node):
                 pos = (not n2) != flags[q.id]
         if pos is None:
             continue
-        unique_arm, other_arm = (st.body, st.orelse) if (pos == uw) else (st.orelse, st.body)
+        unique_arm, other_arm = (conj_arm, rest_arm) if (pos == uw) else (rest_arm, conj_arm)
         if named_joined(unique_arm) and (other_way(other_arm) or not named_joined(other_arm)):
             verdicts.append('ok')
         elif named_joined(other_arm) and not named_joined(unique_arm):
